@@ -120,6 +120,48 @@ def v_hier():
     return Hier, {}
 
 
+_shared = {}
+
+
+def _shared_base():
+    """an entity class whose ports are inherited by a derived design"""
+    if "base" not in _shared:
+        class SharedBase(Entity):
+            a = Port.input(Bit)
+            o = Port.output(Bit, default=True)
+
+            def architecture(self):
+                @std.concurrent
+                def logic():
+                    self.o <<= self.a
+
+        _shared["base"] = SharedBase
+    return _shared["base"]
+
+
+def v_base_port():
+    return _shared_base(), {}
+
+
+def v_derived_inst():
+    Base = _shared_base()
+
+    class DLeaf(Entity):
+        i = Port.input(Bit)
+        q = Port.output(Bit)
+
+        def architecture(self):
+            @std.concurrent
+            def logic():
+                self.q <<= self.i
+
+    class DerivedInst(Base):
+        def architecture(self):
+            DLeaf(i=self.a, q=self.o)  # the inherited output port is driven by an instance
+
+    return DerivedInst, {}
+
+
 def v_open_entity():
     class Sub(Entity):
         x = Port.input(Bit)
@@ -238,7 +280,7 @@ def r_drivers():
     return BadDrv, {}
 
 
-VALID = ["v_comb", "v_coroutine", "v_prefix", "v_named", "v_reserved", "v_hier", "v_open_entity", "v_commented"]
+VALID = ["v_comb", "v_coroutine", "v_prefix", "v_named", "v_reserved", "v_hier", "v_open_entity", "v_commented", "v_base_port", "v_derived_inst"]
 REJECTED = ["r_statemachine", "r_context", "r_prefix", "r_architecture", "r_drivers"]
 _cache = {}
 
